@@ -125,9 +125,23 @@ pub fn decompile_ast(truth: &mut Truth, format: Format, game: Game, file: &Compi
 
 /// `compile`: text -> bytes
 pub fn compile(format: Format, game: Game, user_maps: &[String], text: &[u8]) -> Outcome<Vec<u8>> {
+    compile_with_image_source(format, game, user_maps, text, None)
+}
+
+/// `truanm compile -i ORIGINAL.anm`: the original binary supplied as image source
+pub fn compile_with_image_source(format: Format, game: Game, user_maps: &[String], text: &[u8], anm_source: Option<&[u8]>) -> Outcome<Vec<u8>> {
     with_truth(format, game, user_maps, |truth| {
         let script = truth.parse::<ast::ScriptFile>("<input>", text)?.value;
-        let compiled = compile_ast(truth, format, game, &script)?;
+        let compiled = match (format, anm_source) {
+            (Format::Anm, Some(src)) => {
+                let source = match read_bytes(truth, format, game, src)? { Compiled::Anm(f) => f, _ => unreachable!() };
+                let mut truth = truth.validate_defs()?;
+                let mut w = truth.compile_anm(game, &script)?;
+                w.apply_image_source(truth::anm::ImageSource::Anm(source), &truth.fs())?;
+                Compiled::Anm(truth.finalize_anm(game, w)?)
+            },
+            _ => compile_ast(truth, format, game, &script)?,
+        };
         write_bytes(truth, format, game, &compiled)
     })
 }
